@@ -32,8 +32,10 @@ inductive Value where
   | list (elems : List Value) (sep : Sep) (bracketed : Bool)
   | map (pairs : List (Value × Value))
   /-- The argument list bound to a rest parameter: a list (never bracketed) whose `type-of` is
-      `arglist`. -/
-  | arglist (elems : List Value) (sep : Sep)
+      `arglist`; it also carries the named arguments no parameter consumed (`keywords()`), and the
+      identity of the call that created it (reading the keywords of that very list waives the
+      "No argument named" error). -/
+  | arglist (elems : List Value) (sep : Sep) (kw : List (String × Value)) (id : Nat)
 deriving Inhabited
 
 def Value.truthy : Value → Bool
@@ -50,9 +52,9 @@ def Value.eq : Value → Value → Bool
   | .bool a, .bool b => a == b
   | .null, .null => true
   | .list as sa ba, .list bs sb bb => sa == sb && ba == bb && eqList as bs
-  | .arglist as sa, .arglist bs sb => sa == sb && eqList as bs
-  | .arglist as sa, .list bs sb bb => sa == sb && !bb && eqList as bs
-  | .list as sa ba, .arglist bs sb => sa == sb && !ba && eqList as bs
+  | .arglist as sa _ _, .arglist bs sb _ _ => sa == sb && eqList as bs
+  | .arglist as sa _ _, .list bs sb bb => sa == sb && !bb && eqList as bs
+  | .list as sa ba, .arglist bs sb _ _ => sa == sb && !ba && eqList as bs
   | .map as, .map bs => eqPairs as bs
   | _, _ => false
 def eqList : List Value → List Value → Bool
@@ -72,7 +74,7 @@ def Value.isBlank : Value → Bool
   | .null => true
   | .str s false => s.isEmpty
   | .list es _ br => if br then false else allBlank es
-  | .arglist es _ => allBlank es
+  | .arglist es _ _ _ => allBlank es
   | _ => false
 def allBlank : List Value → Bool
   | [] => true
@@ -136,7 +138,7 @@ def Value.toCss : Value → Except PrintErr String
       .ok (if br then "[" ++ body ++ "]" else body)
     | .error e => .error e
   | .map _ => .error .invalidCss
-  | .arglist es sep =>
+  | .arglist es sep _ _ =>
     if es.isEmpty then .error .invalidCss else
     match toCssList es with
     | .ok parts => .ok ((sepText sep).intercalate parts)
@@ -145,7 +147,7 @@ def Value.toCss : Value → Except PrintErr String
     model: grass does not treat it as blank.) -/
 def toCssList : List Value → Except PrintErr (List String)
   | [] => .ok []
-  | .arglist [] _ :: _ => .error .unsupported
+  | .arglist [] _ _ _ :: _ => .error .unsupported
   | v :: vs =>
     if v.isBlank then toCssList vs else
     match v.toCss, toCssList vs with
@@ -181,7 +183,7 @@ def Value.inspect : Value → Except PrintErr String
     match inspectPairs ps with
     | .ok parts => .ok ("(" ++ ", ".intercalate parts ++ ")")
     | .error e => .error e
-  | .arglist es sep =>
+  | .arglist es sep _ _ =>
     if es.isEmpty then .ok "()" else
     match inspectList sep es with
     | .ok parts =>
@@ -192,7 +194,7 @@ def Value.inspect : Value → Except PrintErr String
 /-- (An argument list nested in another list is outside the model: grass never parenthesises it.) -/
 def inspectList (sep : Sep) : List Value → Except PrintErr (List String)
   | [] => .ok []
-  | .arglist _ _ :: _ => .error .unsupported
+  | .arglist _ _ _ _ :: _ => .error .unsupported
   | v :: vs =>
     match v.inspect, inspectList sep vs with
     | .ok s, .ok ss => .ok ((if needsParens sep v then "(" ++ s ++ ")" else s) :: ss)
@@ -289,11 +291,11 @@ mutual
     (value/arglist.rs:54), the Sass rules do; outside the model. -/
 def Value.nestedEmptyArglist : Value → Bool
   | .list es _ _ => anyEmptyArglist es
-  | .arglist es _ => anyEmptyArglist es
+  | .arglist es _ _ _ => anyEmptyArglist es
   | _ => false
 def anyEmptyArglist : List Value → Bool
   | [] => false
-  | .arglist [] _ :: _ => true
+  | .arglist [] _ _ _ :: _ => true
   | v :: vs => v.nestedEmptyArglist || anyEmptyArglist vs
 end
 
@@ -359,6 +361,7 @@ structure St where
   css : Array (String × String × Option String)   -- selector, property, value text (none: invalid CSS value)
   log : Array (String × String)                   -- kind (debug|warn), message
   work : Nat := 300000                            -- statements still allowed (nested loops multiply)
+  kwRead : List Nat := []                         -- argument lists whose keywords were read
 deriving Inhabited
 
 inductive Res (α : Type) where
@@ -400,6 +403,10 @@ def alGet {β : Type} (l : List (String × β)) (n : String) : Option β :=
   match l with
   | [] => none
   | (m, v) :: r => if m == n then some v else alGet r n
+
+/-- `IndexMap::insert`: replace in place, else append. -/
+def alPut {β : Type} (l : List (String × β)) (k : String) (v : β) : List (String × β) :=
+  if l.any (·.1 == k) then l.map (fun p => if p.1 == k then (k, v) else p) else l ++ [(k, v)]
 
 def alErase {β : Type} (l : List (String × β)) (n : String) : List (String × β) :=
   l.filter (fun p => p.1 != n)
@@ -585,7 +592,9 @@ def evalArgs (r : Rec) (ctx : Ctx) (a : Args) : M Evaled := do
   | some e =>
     match ← r.expr ctx e with
     | .list es sep _ => pure { pos := pos ++ es, named, sep }
-    | .arglist es sep => pure { pos := pos ++ es, named, sep }
+    | .arglist es sep kw id => do
+      modifySt fun st => { st with kwRead := id :: st.kwRead }
+      pure { pos := pos ++ es, named := kw.foldl (fun acc p => alPut acc p.1 p.2) named, sep }
     | .map _ => fail .unsupported
     | v => pure { pos := pos ++ [v], named }
 
@@ -609,8 +618,9 @@ def bindPositional (fid : Nat) : List (String × Option Expr) → List Value →
   | _, _ => pure ()
 
 /-- Invoke a user-defined callable: fresh frame on top of the captured chain, arity check, bind,
-    run `body` in the callee context; leftover named arguments with a rest parameter are an error
-    after the body has run (nothing in the core language can read an argument list's keywords). -/
+    run `body` in the callee context; leftover named arguments with a rest parameter become the
+    argument list's keywords, and are an error after the body has run unless they were read
+    (`keywords($rest)`, or `$rest...` passed on). -/
 def invoke {α : Type} (r : Rec) (dev : Dev) (mk : Nat → Ctx) (ps : Params) (ev : Evaled) (body : Ctx → M α) : M α := do
   let fid ← newFrame
   let ctx := mk fid
@@ -622,10 +632,11 @@ def invoke {α : Type} (r : Rec) (dev : Dev) (mk : Nat → Ctx) (ps : Params) (e
     let _ ← (match ps.rest with
       | some rn =>
         let sep := if dev.restAlwaysComma || ev.sep == .undecided then Sep.comma else ev.sep
-        setVarIn fid rn (.arglist (ev.pos.drop ps.ps.length) sep)
+        setVarIn fid rn (.arglist (ev.pos.drop ps.ps.length) sep left fid)
       | none => pure ())
     let out ← body ctx
-    if ps.rest.isSome && !left.isEmpty then fail .noArgumentNamed else pure out
+    let st ← getSt
+    if ps.rest.isSome && !left.isEmpty && !st.kwRead.contains fid then fail .noArgumentNamed else pure out
 
 /-! ### built-in functions (a handful) -/
 
@@ -635,13 +646,13 @@ def builtin (name : String) (ev : Evaled) : Option (M Value) :=
   | "length", [v] =>
     some (pure (.num (match v with
       | .list es _ _ => es.length
-      | .arglist es _ => es.length
+      | .arglist es _ _ _ => es.length
       | .map ps => ps.length
       | _ => 1)))
   | "nth", [l, .num q] =>
     let es := match l with
       | .list es _ _ => es
-      | .arglist es _ => es
+      | .arglist es _ _ _ => es
       | .map ps => ps.map fun (k, v) => .list [k, v] .space false
       | v => [v]
     some (if q.den != 1 || q.num == 0 then fail .unsupported else
@@ -660,6 +671,14 @@ def builtin (name : String) (ev : Evaled) : Option (M Value) :=
       | .num _ => "number" | .str .. => "string" | .bool _ => "bool" | .null => "null"
       | .list .. => "list" | .map _ => "map" | .arglist .. => "arglist") false))
   | "not", [v] => some (pure (.bool !v.truthy))
+  | "list-separator", [v] =>
+    some (pure (.str (match v with
+      | .list _ .comma _ => "comma" | .arglist _ .comma _ _ => "comma" | .map _ => "comma"
+      | _ => "space") false))
+  | "keywords", [.arglist _ _ kw id] =>
+    some (do
+      modifySt fun st => { st with kwRead := id :: st.kwRead }
+      pure (.map (kw.map fun (k, v) => (.str k false, v))))
   | _, _ => none
 
 /-! ### one level of evaluation -/
@@ -775,7 +794,7 @@ def eachBind (fid : Nat) : List String → List Value → M Unit
 
 def asList : Value → List Value
   | .list es _ _ => es
-  | .arglist es _ => es
+  | .arglist es _ _ _ => es
   | .map ps => ps.map fun (k, v) => .list [k, v] .space false
   | v => [v]
 
@@ -793,7 +812,7 @@ def stmtF (r : Rec) (ctx : Ctx) : Stmt → M (Option Value)
     if ctx.sel.isEmpty then fail .declOutsideRule else
     let v ← r.expr ctx e
     if v.nestedEmptyArglist then fail .unsupported else
-    let emptyList := match v with | .list [] _ false => true | .map [] => true | .arglist [] _ => true | _ => false
+    let emptyList := match v with | .list [] _ false => true | .map [] => true | .arglist [] _ _ _ => true | _ => false
     let droppedAsFound := match v with | .list [] _ false => ctx.dev.emptyListDeclDropped | _ => false
     if v.isBlank && !emptyList then pure none else
     if droppedAsFound then pure none else
